@@ -109,6 +109,53 @@ def long_repetition_probe(seed, evs, what, target_rows=1150):
     evs.append({'ev': 'call', 'op': 'flag', 'name': name, 'value': ok, 'args': {}, 'snap': evs[-1].get('snap', '') if evs else ''})
 
 
+def many_measures_probe(seed, evs, target_measures=300):
+    """A score with several hundred measures (more than any small-integer table or cache holds) built as K repetitions of the body of a
+    short single-spine score whose body begins with a barline.  Iterating it yields 1..M, the measure count is M, ranges counted from
+    its beginning and from its END (to_measure = M included) have the body lines of the same ranges of the 3-repetition score, and
+    an end beyond M is rejected.  Comparisons between real outputs (the small scores are validated by TLC in the main populations)."""
+    import kernpy as kp
+    r, lines, types = make_doc(seed * 31 + 5, 'kern_only', max_rows=9, min_rows=5, max_spines=1, kern_only=True, splits=False, chords='core',
+                               pre_comments=False, post_comments=False, mid_comments=False, opening_bar=1.0, final_bar=0.0, hidden_bars=False, mid_sigs=False)
+    body = lines[1:-1]
+    first_bar = next((i for i, e in enumerate(body) if e['ev'] == 'row' and e['cells'][0]['k'] == 'bar'), None)
+    if first_bar is None:
+        return
+    pre, block = body[:first_bar], body[first_bar:]
+    nbars = sum(1 for e in block if e['ev'] == 'row' and e['cells'][0]['k'] == 'bar')
+    if not nbars or len(block) < 2:
+        return
+    K = max(4, -(-target_measures // nbars))
+    data = lambda txt: [ln for ln in txt.split('\n') if ln and not ln.startswith(('*', '!'))]  # noqa
+    name = 'dumps.range_of_a_score_with_hundreds_of_measures'
+    try:
+        two, _ = kp.loads(session.render([lines[0]] + pre + block * 3 + [lines[-1]]))
+        big, _ = kp.loads(session.render([lines[0]] + pre + block * K + [lines[-1]]))
+        m2, M = two.measures_count(), big.measures_count()
+        m = m2 - kp.loads(session.render([lines[0]] + pre + block * 2 + [lines[-1]]))[0].measures_count()
+        ok = m == nbars and M == m2 + (K - 3) * m and list(big) == list(range(1, M + 1))
+        for x, y in [(0, 0), (1, 0), (1, 1), (m - 1, 0), (m, 0), (m, m - 1), (min(m + 1, m2 - 1), 0)]:
+            if x < y or m2 - x < 1:
+                continue
+            ok = ok and data(kp.dumps(big, from_measure=M - x, to_measure=M - y)) == data(kp.dumps(two, from_measure=m2 - x, to_measure=m2 - y))
+            ok = ok and data(kp.dumps(big, from_measure=M - x)) == data(kp.dumps(two, from_measure=m2 - x))
+        for a, b in [(1, 1), (1, m), (2, m), (m, m)]:
+            if a <= b <= m2:
+                ok = ok and data(kp.dumps(big, from_measure=a, to_measure=b)) == data(kp.dumps(two, from_measure=a, to_measure=b))
+        for j in sorted({254, 255, 256, 257, 258, M // 2} & set(range(m + 1, M - m))):      # measures in the middle: periodic in the block
+            jj = (j - 1) % m + 1 + m                                                       # the same measure of the second block
+            ok = ok and data(kp.dumps(big, from_measure=j, to_measure=j)) == data(kp.dumps(two, from_measure=jj, to_measure=jj))
+        try:
+            kp.dumps(big, from_measure=1, to_measure=M + 1)
+            ok = False
+        except ValueError:
+            pass
+    except Exception:  # noqa
+        ok = False
+        name = 'dumps.range_of_a_score_with_hundreds_of_measures_raised'
+    evs.append({'ev': 'call', 'op': 'flag', 'name': name, 'value': ok, 'args': {}, 'snap': evs[-1].get('snap', '') if evs else ''})
+
+
 def features(lines):
     """tags describing what a document exercises (for the non-triviality counts)."""
     tags = set()
@@ -491,6 +538,8 @@ def sess_c07(seed, profile='kern_only', mixed=False, sigs=False, hidden=False):
         # one Exporter and one ExportOptions(from_measure=1, to_measure=M) for this score, a score with MORE measures and this score again
         reuse_probe(doc, seed, evs, 'dumps.range_same_with_reused_exporter_and_options_on_a_longer_score', profile=profile, need='more_measures',
                     ranged=True, spine_types=ts, **{k_: v_ for k_, v_ in over.items() if k_ != 'max_rows'}, max_rows=34)
+        if seed % 5 == 0 and not sigs and not hidden:
+            many_measures_probe(seed, evs)
     tags = features(lines)
     if mixed:
         tags.add('mixed-export-kern-only')
